@@ -82,7 +82,7 @@ def build_cluster(spec):
     return cl
 
 
-HARNESS_ONLY = {"churn", "move_results", "drop_results", "reread_fetch", "reread_poll"}
+HARNESS_ONLY = {"churn", "move_results", "drop_results", "reread_fetch", "reread_poll", "sleep_ms"}
 
 
 class Plan:
